@@ -134,16 +134,47 @@ def _contains(anc, n):
     return False
 
 
+def _roles(fn):
+    """Role names for the locals of the address functions, found from what is done with them (never from their identifiers):
+       sum / num_axial_pos_offset : the local accumulated with += inside a for loop (per-segment sizes)
+       index                      : the local bounding that loop (i < index)
+       i                          : that loop's variable
+       segment_offset             : the local advanced with += outside any loop (TOF block)
+       timing_index               : the local multiplying offset_3d_data in that advance"""
+    roles = {}
+    writes_tof_stride = any(n.k == "BinaryOperator" and n.op == "=" and key(n.c[0]) == "this.offset_3d_data" for n in fn.walk())
+    for n in fn.walk():
+        if n.k == "CompoundAssignOperator" and n.op == "+=" and n.c[0].strip().k == "DeclRefExpr" and n.c[0].strip().get("dk") == "local":
+            d = n.c[0].strip().get("d")
+            loops = [a for a in n.ancestors() if a.k == "ForStmt"]
+            if loops:
+                roles.setdefault(d, "sum" if writes_tof_stride else "num_axial_pos_offset")
+                lp = loops[0]
+                for m in lp.c[0].walk():
+                    if m.k == "VarDecl":
+                        roles.setdefault(m.get("d"), "i")
+                c = lp.c[1].strip()
+                if c.k == "BinaryOperator" and c.op == "<" and c.c[1].strip().k == "DeclRefExpr" and c.c[1].strip().get("dk") == "local":
+                    roles.setdefault(c.c[1].strip().get("d"), "index")
+            else:
+                roles.setdefault(d, "segment_offset")
+                for m in n.c[1].walk():
+                    if m.k == "DeclRefExpr" and m.get("dk") == "local":
+                        roles.setdefault(m.get("d"), "timing_index")
+    return roles
+
+
 def rule_b_layout(ctx, fn, fixed_order=None):
     cfg = CFG(fn)
     rets = [r for r in cfg.return_nodes() if cfg.is_reachable(r) and r.c]
-    alg = Algebra(fn, names=True)
+    R = _roles(fn)
+    alg = Algebra(fn, names=R)
     for r in rets:
         E = alg.expr(r.c[0])
         # segment_offset is conditionally advanced by the TOF block (checked by _check_tof_add): substitute its initialiser
         so = [x for x in E.free_symbols if x.name == "segment_offset"]
         if so:
-            sd = [d for d in alg.defs.decl.values() if d.get("n") == "segment_offset" and d.c]
+            sd = [d for d in alg.defs.decl.values() if R.get(d.get("d")) == "segment_offset" and d.c]
             if sd:
                 E = E.subs(so[0], alg.expr(sd[0].c[0]) + alg.sym("timing_index") * alg.sym("this.offset_3d_data"))
         E = sympy.expand(E)
@@ -231,21 +262,22 @@ def rule_b_layout(ctx, fn, fixed_order=None):
 def _check_prefix_loop(ctx, fn):
     """num_axial_pos_offset = sum_{i<index} get_num_axial_poss(segment_sequence[i]); index = position of the bin's segment"""
     ok = False
+    R = _roles(fn)
     det = "no loop accumulating get_num_axial_poss(segment_sequence[i]) for i in [0,index)"
     for n in fn.walk():
         if n.k != "ForStmt":
             continue
         init, cond, inc, body = n.c[0], n.c[1], n.c[2], n.c[3]
-        adds = [m for m in body.walk() if m.k == "CompoundAssignOperator" and m.op == "+=" and key(m.c[0], True) == "num_axial_pos_offset"]
+        adds = [m for m in body.walk() if m.k == "CompoundAssignOperator" and m.op == "+=" and key(m.c[0], R) == "num_axial_pos_offset"]
         if not adds:
             continue
-        rhs = key(adds[0].c[1], True)
+        rhs = key(adds[0].c[1], R)
         iv = None
         for m in init.walk():
             if m.k == "VarDecl" and m.c and key(m.c[0]) == "0":
-                iv = m.get("n")
-        ck = key(cond, True)
-        ik = key(inc, True)
+                iv = R.get(m.get("d")) or "v%d" % m.get("d")
+        ck = key(cond, R)
+        ik = key(inc, R)
         ok = (
             iv is not None
             and ck == "(< %s index)" % iv
@@ -255,9 +287,9 @@ def _check_prefix_loop(ctx, fn):
         det = "loop %s; %s; body += %s" % (ck, ik, rhs)
         # index must be the position of the bin's own segment in segment_sequence
         defs = LocalDefs(fn)
-        idx = [d for d in defs.decl.values() if d.get("n") == "index"]
+        idx = [d for d in defs.decl.values() if R.get(d.get("d")) == "index"]
         if idx and idx[0].c:
-            ik2 = key(idx[0].c[0], True)
+            ik2 = key(idx[0].c[0], R)
             ok = ok and "std::find(" in ik2 and "this.segment_sequence.begin()" in ik2 and "segment_num()" in ik2 and ik2.startswith("(- ")
             det += "; index = " + ik2[:120]
         else:
@@ -267,23 +299,24 @@ def _check_prefix_loop(ctx, fn):
 
 def _check_tof_add(ctx, fn):
     """segment_offset += timing_index * offset_3d_data where timing_index is the position of the bin's TOF index"""
+    R = _roles(fn)
     adds = [
         m
         for m in fn.walk()
-        if m.k == "CompoundAssignOperator" and m.op == "+=" and key(m.c[0], True) == "segment_offset"
+        if m.k == "CompoundAssignOperator" and m.op == "+=" and key(m.c[0], R) == "segment_offset"
     ]
     if not adds:
         ctx.ob("C02.b-layout", fn.qn, "tof-block-add", False, fn.where(), "no TOF block offset added to segment_offset")
         return
     for m in adds:
-        alg = Algebra(fn, names=True, inline=False)
+        alg = Algebra(fn, names=R, inline=False)
         e = sympy.expand(alg.expr(m.c[1]))
         ok = set(s.name for s in e.free_symbols) == {"timing_index", "this.offset_3d_data"} and sympy.expand(e - alg.sym("timing_index") * alg.sym("this.offset_3d_data")) == 0
         # timing_index definition
         blk = m
         tdef = None
         for a in m.ancestors():
-            for d in a.find(lambda x: x.k == "VarDecl" and x.get("n") == "timing_index"):
+            for d in a.find(lambda x: x.k == "VarDecl" and R.get(x.get("d")) == "timing_index"):
                 tdef = d
             if tdef is not None:
                 break
@@ -291,7 +324,7 @@ def _check_tof_add(ctx, fn):
             ok = False
             tk = "?"
         else:
-            tk = key(tdef.c[0], True)
+            tk = key(tdef.c[0], R)
             ok = ok and "std::find(" in tk and "this.timing_poss_sequence.begin()" in tk and "timing_pos_num()" in tk and tk.startswith("(- ")
         ctx.ob("C02.b-layout", fn.qn, "tof-block-add", ok, "%s:%d" % (fn.file, m.line), "segment_offset += %s ; timing_index = %s" % (e, tk[:100]))
 
@@ -305,7 +338,8 @@ def rule_b_tof_stride_def(ctx, fn, with_elem):
     if target is None:
         ctx.unrec(fn.qn, "no assignment to offset_3d_data")
         return
-    alg = Algebra(fn, names=True, inline=False)
+    R = _roles(fn)
+    alg = Algebra(fn, names=R, inline=False)
     e = sympy.expand(alg.expr(target.c[1]))
     names = sorted(s.name for s in e.free_symbols)
     if with_elem:
@@ -323,17 +357,17 @@ def rule_b_tof_stride_def(ctx, fn, with_elem):
         if n.k != "ForStmt":
             continue
         init, cond, inc, body = n.c
-        adds = [m for m in body.walk() if m.k == "CompoundAssignOperator" and m.op == "+=" and key(m.c[0], True) == "sum"]
+        adds = [m for m in body.walk() if m.k == "CompoundAssignOperator" and m.op == "+=" and key(m.c[0], R) == "sum"]
         if not adds:
             continue
         iv = None
         ivinit = None
         for m in init.walk():
             if m.k == "VarDecl" and m.c:
-                iv, ivinit = m.get("n"), key(m.c[0], True)
+                iv, ivinit = R.get(m.get("d")) or "v%d" % m.get("d"), key(m.c[0], R)
         term = sympy.expand(alg.expr(adds[0].c[1]))
         tn = sorted(s.name for s in term.free_symbols)
-        ck, ik = key(cond, True), key(inc, True)
+        ck, ik = key(cond, R), key(inc, R)
         okl = (
             iv is not None
             and ivinit.endswith("get_min_segment_num()")
@@ -363,7 +397,7 @@ def rule_c_single_address_map(ctx, pdfs, pdim):
         for c in fn.calls():
             if c.callee in SEEKS:
                 off = c.call_args()[2]
-                k = key(off.strip(), True)
+                k = key(off.strip())
                 ok = re.fullmatch(r"this\.get_offset\([A-Za-z_0-9]+\)", k) is not None
                 ctx.ob("C02.c-one-address-map", fn.qn, "seek@%s" % c.callee.split("::")[-1], ok, c.where(), "offset argument = %s" % k)
                 n += 1
@@ -375,7 +409,7 @@ def rule_c_single_address_map(ctx, pdfs, pdim):
         for c in fn.calls():
             if c.callee in ("stir::detail::copy_data_from_buffer", "stir::detail::copy_data_to_buffer"):
                 off = c.call_args()[2]
-                k = key(off.strip(), True)
+                k = key(off.strip())
                 ok = re.fullmatch(r"this\.get_index\([A-Za-z_0-9]+\)", k) is not None
                 ctx.ob("C02.c-one-address-map", fn.qn, "copy@%s" % c.callee.split("::")[-1], ok, c.where(), "offset argument = %s" % k)
                 n += 1
